@@ -418,7 +418,7 @@ Section Items.
     unfold field_plain, field_tokens, field_pty. intros Hp H.
     apply bind_ok in H as (t0 & Ht0 & H).
     pose proof (tp_good alloc Halloc _ _ Hp Ht0) as G.
-    destruct (fi_boxed f); inversion H; subst; [|exact G].
+    destruct (fi_emit_boxed f); inversion H; subst; [|exact G].
     destruct (alloc_segs alloc) as [[al asegs]|] eqn:Ea;
       [|unfold alloc_okb in Halloc; rewrite Ea in Halloc; discriminate].
     fold alloc. rewrite Ea.
